@@ -12,7 +12,8 @@ from . import common, docs, draws, engine, model as M, oracles as O, sources, wa
 from .common import Failure, Reporter
 
 
-ACT_MODES_LAZY = st.fixed_dictionaries({"flat_actions": st.sampled_from([True, True, False])})
+ACT_MODES_LAZY = st.fixed_dictionaries({"flat_actions": st.sampled_from([True, True, False]),
+                                        "render_mode": st.sampled_from([None, None, None, "human", "ansi"])})
 
 
 class Chk:
@@ -98,7 +99,8 @@ def _c08_reset(h, obs, info, rep):
     O.c08_initial(h, h.obs2d(obs), h.env.current_state.tensor, rep, "reset")
 
 
-OBS_MODES = st.fixed_dictionaries({"fully_obs": st.booleans(), "flat_obs": st.booleans(), "flat_actions": st.sampled_from([True, True, False])})
+OBS_MODES = st.fixed_dictionaries({"fully_obs": st.booleans(), "flat_obs": st.booleans(), "flat_actions": st.sampled_from([True, True, False]),
+                                   "render_mode": st.sampled_from([None, None, None, "human", "ansi"])})
 ACT_MODES = st.fixed_dictionaries({"flat_actions": st.sampled_from([True, True, False])})
 
 CHECKS = {
@@ -428,6 +430,13 @@ def _c07_freq_shard(shard, seed, pid, tier, jobs):
                         if act.target not in owned else (None, None, None, None, None)
                     if info is not None:
                         note("generative steps", act.prob, bool(info["success"]))
+            # the same (state, action) sampled generatively many times in a row, nothing else in between
+            env.reset()
+            act = cands[job["freq_job"] % len(cands)]
+            real = h.real_actions[h.real_index[act.key()]]
+            for _ in range(job["episodes"]):
+                ns, o_, r_, d_, info = env.generative_step(env.current_state, real)
+                note("consecutive generative steps", act.prob, bool(info["success"]))
             for b, (n, dev, var) in sorted(buckets.items()):
                 if n < 60:
                     continue
